@@ -72,6 +72,8 @@ class StepEvent:
         self.go = threading.Semaphore(0)
         self.parked = threading.Semaphore(0)
     def wait(self, timeout=None):
+        if timeout is not None and timeout > 0:
+            VClock.now += int(round(timeout / 1e-9))       # the wait lasts exactly as long as asked
         self.parked.release()
         self.go.acquire()
         return self.flag
@@ -100,10 +102,15 @@ class StepThread:
     def start(self):
         self.t.start()
         self.breaker.parked.acquire()   # until the worker waits for its first tick (or is dead)
+        if not self.t.is_alive() or self.exc is not None:
+            self.t.join()
+            self.reaped = True          # it died before its first wait: its last `parked` signal is the one just consumed
     def join(self):
         self.t.join()
-        # the dying worker released `parked` once more: consume it
-        self.breaker.parked.acquire()
+        if not getattr(self, "reaped", False):
+            # the dying worker released `parked` once more: consume it
+            self.breaker.parked.acquire()
+            self.reaped = True
     def is_alive(self): return self.t.is_alive()
 
 def _mk_thread(group=None, target=None, name=None, args=(), kwargs=None, daemon=None):
@@ -121,10 +128,22 @@ def _mk_thread(group=None, target=None, name=None, args=(), kwargs=None, daemon=
 def _mk_event():
     return StepEvent() if USE_WORKER else threading.Event()
 
+class VClock:
+    """virtual monotonic clock of the clock thread: a wait advances it by its timeout; now and then a tick's handler
+    'takes' several frame periods (deterministically, from the history's seed), so that the overrun branch of the
+    worker loop (deadline already passed -> resynchronise, zero-length wait) is executed too"""
+    now = 0
+    ticks = 0
+    FRAME_NS = 4615000
+
+
 def worker_tick(gen):
     """one iteration of the real _worker loop: wait() returns False, send_clck_ind(), next wait()"""
     th = gen._thread
     br = gen._breaker
+    VClock.ticks += 1
+    if (Draw.seed + VClock.ticks) % 5 == 0:
+        VClock.now += (2 + (Draw.seed + VClock.ticks) % 3) * VClock.FRAME_NS + 17
     br.go.release()
     br.parked.acquire()
     if th.exc is not None:
@@ -132,12 +151,25 @@ def worker_tick(gen):
         # fresh worker on the same counter, as the direct-call harness did (clck_src is not incremented by a failed tick)
         exc, th.exc = th.exc, None
         th.t.join()
+        th.reaped = True
         gen._thread = StepThread(gen._worker)
         gen._thread.start()
         raise exc
 
 clck_gen.threading = types.SimpleNamespace(Thread=_mk_thread, Event=_mk_event)
-clck_gen.time = types.SimpleNamespace(monotonic_ns=lambda: 0)
+clck_gen.time = types.SimpleNamespace(monotonic_ns=lambda: VClock.now)
+
+
+def _sched_setscheduler(pid, policy, param):
+    """stands in for os.sched_setscheduler inside clck_gen: what an unprivileged Linux process gets - EINVAL for a priority
+    outside 1..99, EPERM otherwise"""
+    import errno
+    if not 1 <= int(param) <= 99:
+        raise OSError(errno.EINVAL, "Invalid argument")
+    raise PermissionError(errno.EPERM, "Operation not permitted")
+
+
+clck_gen.os = types.SimpleNamespace(sched_param=lambda prio: prio, SCHED_RR=2, sched_setscheduler=_sched_setscheduler)
 ctrl_if.time = types.SimpleNamespace(sleep=lambda s: None)
 
 class Draw:
@@ -157,17 +189,22 @@ fake_trx.random = types.SimpleNamespace(randint=Draw.randint)
 fake_pm.randint = Draw.randint
 
 class StaleCounter(logging.Handler):
+    """counts the reports of stale bursts.  The report is recognised by what it is about, not by its exact wording or level:
+    a log record emitted by Transceiver.clck_tick, or any record whose text speaks of a 'stale' message."""
     n = 0
     def emit(self, rec):
         try:
-            if "Stale TRXD message" in rec.getMessage():
+            if rec.funcName == "clck_tick" and rec.module == "transceiver":
+                if rec.levelno >= logging.INFO or "stale" in rec.getMessage().lower():
+                    StaleCounter.n += 1
+            elif rec.levelno >= logging.INFO and "stale" in rec.getMessage().lower():
                 StaleCounter.n += 1
         except Exception:
             pass
 
 root = logging.getLogger()
 root.handlers[:] = [StaleCounter()]
-root.setLevel(logging.WARNING)
+root.setLevel(logging.INFO)     # DEBUG would make every log.debug() of the toolkit build a record
 
 # optional trace of routing decisions (oracle mode only; never compared with the model):
 # every FakeTRX.handle_data_msg(self, src_trx, src_msg, msg) call is recorded as call:<dst>:<src>:<fn>
@@ -201,6 +238,9 @@ def build(extra):
     argv = ["fake_trx.py", "-b", BIND, "-R", ADDR["a"], "-r", ADDR["b"], "-P", "5700", "-p", "6700"]
     for (addr, port, idx) in extra:
         argv += ["--trx", "%s:%d/%d" % (ADDR[addr], port, idx)]
+    # the rarely used real-time option of the clock thread (an option the model does not know: it must make no difference)
+    if Draw.seed % 6 == 0:
+        argv += ["-s", str([1, 98, 99, 50][(Draw.seed // 6) % 4])]
     old = sys.argv
     sys.argv = argv
     try:
@@ -276,6 +316,7 @@ def run_line(line):
     head, _, opstr = line.partition("|")
     tok = head.split()
     Draw.seed = int(tok[1]); Draw.k = 0
+    VClock.now = 0; VClock.ticks = 0
     Net.log.clear(); StaleCounter.n = 0
     extra = []
     if tok[2] != "-":
